@@ -243,6 +243,10 @@ Proof.
 Qed.
 
 (* ---------- user-defined externals ---------- *)
+Lemma external_requirements_lem T M i size :
+  t_req T = prelude_req -> (phys_req T M (RExt i) size = true <-> real_width M (RExt i) size).
+Proof. intros H. exact (phys_req_iff T M (RExt i) size H). Qed.
+
 Lemma check_external_iff x : check_external x = true <-> real_external x.
 Proof.
   unfold check_external, real_external. destruct (xd_unit x) as [u|].
